@@ -172,7 +172,7 @@ fn eval(ctx: &Ctx, case: &Case) {
         Ok(l) => l,
         Err(e) => return ctx.violation("StatusList2021::try_from_encoded_str|own-encoding-rejected", &e, case),
       };
-      let index = if *k == usize::MAX { usize::MAX } else { list.len() + k };
+      let index = if *k == usize::MAX { usize::MAX } else { bytes * 8 + k };
       let before = list.clone();
       let r = if *set {
         guard(|| list.set(index, true)).map(|r| r.map(|_| false))
@@ -197,7 +197,11 @@ fn eval(ctx: &Ctx, case: &Case) {
       // replay the whole history from the initial list, oracle at every step
       let col = Collector::new();
       let m = HistModel { pattern: *pattern, entries: *entries, col: col.clone() };
-      let mut st = m.init_states().remove(0);
+      let mut inits = m.init_states();
+      if inits.is_empty() {
+        return col.drain_into(ctx, "history-replay");
+      }
+      let mut st = inits.remove(0);
       for (id, v) in ops {
         match m.next_state(&st, (*id, *v)) {
           Some(n) => st = n,
@@ -249,11 +253,28 @@ impl Model for HistModel {
   type Action = (u8, bool);
   fn init_states(&self) -> Vec<HistState> {
     let model = vec![self.pattern; self.entries / 8];
+    let case = Case::History { pattern: self.pattern, entries: self.entries, ops: vec![] };
     let list = if self.pattern == 0 {
-      StatusList2021::new(self.entries).expect("new")
+      match guard(|| StatusList2021::new(self.entries)) {
+        Ok(Ok(l)) => l,
+        other => {
+          self.col.violation("StatusList2021::new|permitted-size-rejected", &format!("{:?}", other.map(|r| r.map(|l| l.len()))), &case);
+          return vec![];
+        }
+      }
     } else {
-      list_from_bytes(&model).expect("init list")
+      match list_from_bytes(&model) {
+        Ok(l) => l,
+        Err(e) => {
+          self.col.violation("StatusList2021::try_from_encoded_str|own-encoding-rejected", &e, &case);
+          return vec![];
+        }
+      }
     };
+    if list.len() != self.entries {
+      // all index arithmetic below uses the MODEL's length; a wrong len() is a violation, not a harness panic
+      self.col.violation("StatusList2021::len|not-8-per-byte", &format!("len {} for {} entries", list.len(), self.entries), &case);
+    }
     vec![HistState { list, model, hist: vec![] }]
   }
   fn actions(&self, _s: &HistState, out: &mut Vec<(u8, bool)>) {
@@ -268,7 +289,7 @@ impl Model for HistModel {
     let mut n = s.clone();
     n.hist.push((id, v));
     let case = Case::History { pattern: self.pattern, entries: self.entries, ops: n.hist.clone() };
-    let i = idx(id, n.list.len());
+    let i = idx(id, self.entries);
     set_bit(&mut n.model, i, v);
     match guard(|| n.list.set(i, v)) {
       Ok(Ok(())) => {}
@@ -281,7 +302,7 @@ impl Model for HistModel {
         return None;
       }
     }
-    if let Some((j, want, got)) = diff(&n.list, &n.model, &window(n.list.len())) {
+    if let Some((j, want, got)) = diff(&n.list, &n.model, &window(self.entries)) {
       let kind = if j == i { "target-entry-wrong" } else { "other-entry-changed" };
       self.col.violation(
         &format!("StatusList2021::set|value={v}|{kind}"),
